@@ -4,6 +4,7 @@ import TxV.Model.Listen
 Driver for the onion-endpoint model (C17).
   validate <ephemeral n|t|f> <dir 0|1> <auth n|b|s> <stealthArg 0|1> <key 0|1> <singleHop 0|1>
   listen <public> <bound> <none|config|notConfig|bootstrap|bind|create>
+  listenw <public> <bound> <address known before the reply 0|1> <command accepted 0|1> <r | l | u:own:dir | d:own:dir | f:own:dir>…
 -/
 namespace TxV.Drv.Listen
 open TxV TxV.Drv TxV.Listen
@@ -26,6 +27,22 @@ def decFail : String → Option FailAt
   | "none" => some .none | "config" => some .config | "notConfig" => some .notConfig | "bootstrap" => some .bootstrap
   | "bind" => some .bind | "create" => some .create | _ => none
 
+/-- `r` reply · `l` lost · `u:own:dir` UPLOAD · `d:own:dir` UPLOADED · `f:own:dir` FAILED -/
+def decWaitIn (t : String) : Option TxV.HsDesc.In :=
+  match t.splitOn ":" with
+  | ["r"] => some .reply
+  | ["l"] => some .lost
+  | [k, o, d] =>
+    match d.toNat? with
+    | some d =>
+      let own := o = "1"
+      if k = "u" then some (.ev { kind := .upload, own := own, dir := d })
+      else if k = "d" then some (.ev { kind := .uploaded, own := own, dir := d })
+      else if k = "f" then some (.ev { kind := .failed, own := own, dir := d })
+      else none
+    | none => none
+  | _ => none
+
 def step (_ : Unit) (line : String) : Unit × String :=
   match words line with
   | ["validate", e, d, a, s, k, h] =>
@@ -38,6 +55,12 @@ def step (_ : Unit) (line : String) : Unit × String :=
     match p.toNat?, b.toNat? with
     | some p, some b => ((), ";".intercalate ((listenAgain p b).map showEv) ++ " open=" ++ ",".intercalate ((openPorts (listenAgain p b)).map toString))
     | _, _ => ((), "bad-op")
+  | "listenw" :: p :: b :: k :: c :: evs =>
+    match p.toNat?, b.toNat?, evs.mapM decWaitIn with
+    | some p, some b, some h =>
+      let r := listenWith p b (k = "1") (c = "1") h
+      ((), ";".intercalate (r.map showEv) ++ " open=" ++ ",".intercalate ((openPorts r).map toString))
+    | _, _, _ => ((), "bad-op")
   | ["listen", p, b, f] =>
     match p.toNat?, b.toNat?, decFail f with
     | some p, some b, some f => ((), ";".intercalate ((listen p b f).map showEv) ++ " open=" ++ ",".intercalate ((openPorts (listen p b f)).map toString))
